@@ -232,6 +232,9 @@ def run_pipeline(pid, tier, seed, presets, per, budget, malmax, over, rounds=1, 
                     stats["mal"][k] = stats["mal"].get(k, 0) + v
                 stats["plan_hashes"] += r.get("plan_hashes", 0)
                 stats["alias_probes"] = stats.get("alias_probes", 0) + r.get("alias_probes", 0)
+                for k, v in (r.get("probes") or {}).items():
+                    pp_ = stats.setdefault("probes", {}).setdefault(r["t"], {})
+                    pp_[k] = pp_.get(k, 0) + v
                 if r.get("odd_vectors") and r["kind"] == "value" and r.get("has_view"):
                     stats["odd_vector_cases"] = stats.get("odd_vector_cases", 0) + 1
                 stats["distinct"].add(r["hash"])
@@ -294,6 +297,54 @@ def coverage_guard(stats, need_mal):
             raise lib.InfraError("no over-limit encodings were tried")
 
 
+def probe_totals(stats):
+    tot = {}
+    for t, d in stats.get("probes", {}).items():
+        for k, v in d.items():
+            tot[k] = tot.get(k, 0) + v
+    return tot
+
+
+FORK_PKGS = ["phase0", "altair", "bellatrix", "capella", "deneb", "electra"]
+# probes that must have run (type, probe) - the vacuity guard of harness/cmd/ssz/probes.go
+REQUIRED_PROBES = {
+    "C05": [(f + ".SignedBeaconBlock", "signed_header|root") for f in FORK_PKGS]
+    + [(f + ".BeaconBlockBody", k) for f in FORK_PKGS[2:] for k in
+       ("shallow|root", "shallow|payload_root", "shallow|field", "shallow|with_payload", "shallow|with_other_payload")]
+    + [(f + ".BeaconState", "new_view|default_root") for f in FORK_PKGS]
+    + [("phase0.Validator", "new_view|default_root"), ("phase0.DepositRootsView", "new_view|default_root"),
+       ("phase0.DepositRootsView", "as|root"), ("phase0.HistoricalBatch", "as|root"), ("altair.SyncAggregate", "as|root")],
+    "C04": [(f + ".BeaconBlockBody", "check_limits|over") for f in FORK_PKGS]
+    + [(f + ".BeaconBlockBody", "check_limits|valid") for f in FORK_PKGS]
+    + [("common.MetaData", "data|field"), ("common.Status", "data|field"), ("common.JustificationBits", "bitvector|bitlen"),
+       ("common.AttnetBits", "bitvector|bitlen"), ("common.SyncnetBits", "bitvector|bitlen"),
+       ("phase0.Attestation", "wrap|proxy"), ("deneb.BeaconBlockBody", "body|get_transactions"),
+       ("deneb.BeaconBlockBody", "body|get_blob_kzg_commitments"), ("electra.BeaconBlockBody", "body|get_transactions")],
+    "C15": [(t, "as|construct") for t in (
+        "altair.SyncAggregate", "altair.SyncCommitteeBits", "altair.SyncCommitteeSubnetBits", "altair.SyncCommitteeContribution",
+        "altair.ContributionAndProof", "altair.SignedContributionAndProof", "altair.SyncCommitteeMessage",
+        "bellatrix.ExecutionPayload", "capella.ExecutionPayload", "deneb.ExecutionPayload", "common.BLSSignature",
+        "phase0.DepositRootsView", "phase0.HistoricalBatch", "common.Withdrawal", "common.BLSToExecutionChange",
+        "common.SignedBLSToExecutionChange", "electra.AttestationBits", "electra.CommitteeBits", "common.Checkpoint",
+        "common.BeaconBlockHeader", "common.Fork", "common.Eth1Data", "phase0.Validator")]
+    + [(t, "as|accessor") for t in ("common.Withdrawal", "common.BLSToExecutionChange", "common.Checkpoint",
+                                    "common.BeaconBlockHeader", "common.Eth1Data", "phase0.Validator", "phase0.HistoricalBatch")]
+    + [(t, "as|raw") for t in ("common.Withdrawal", "common.BLSToExecutionChange", "common.SignedBLSToExecutionChange",
+                               "altair.SyncCommitteeBits", "altair.SyncCommitteeSubnetBits", "electra.CommitteeBits",
+                               "electra.AttestationBits", "common.Checkpoint")]
+    + [(t, "view|accessor") for t in ("common.Withdrawal", "common.BLSToExecutionChange", "common.Checkpoint")],
+}
+
+
+def probe_guard(pid, stats):
+    holes = []
+    for t, k in REQUIRED_PROBES.get(pid, []):
+        if stats.get("probes", {}).get(t, {}).get(k, 0) == 0:
+            holes.append("%s never probed via %s" % (t, k))
+    if holes:
+        raise lib.InfraError("probe coverage holes: " + "; ".join(holes[:20]))
+
+
 def table_types():
     """names + variable-size flag from a schema export (one TLC run, cached per process)."""
     wd, _ = export_schemas()
@@ -316,6 +367,9 @@ def evidence_coverage(stats, extra=None):
         "per_preset": stats["per_preset"], "malformed_tried": stats["mal"], "overlimit_cases": stats["overlimit_cases"],
         "sha256_hashes_evaluated_from_plans": stats["plan_hashes"],
         "struct_to_view_alias_probes": stats.get("alias_probes", 0),
+        "probes_by_kind": probe_totals(stats),
+        "bit_helper_cases": stats.get("bits", {}),
+        "probes_per_type": stats.get("probes", {}),
         "vector_length_not_power_of_two": stats.get("odd_vector_cases", 0), "views_checked": stats["views_checked"],
         "skipped_too_big_for_tlc": stats["skipped_too_big"],
         "samples": stats["samples"],
@@ -353,7 +407,7 @@ def report(pid, viol, known, notes):
         seen.add(key)
         name = "ssz_%s_%s_%s_%s.json" % (d["type"].replace(".", "-"), d["dev"]["method"].replace(".", "-"),
                                          d["dev"]["class"], d["preset"])
-        path = lib.save_replay(pid, name, {"kind": "ssz-case", "property": pid, "preset": d["preset"], "case": d["case"],
+        path = lib.save_replay(pid, name, {"kind": "ssz-case" if d["case"] else "ssz-bits", "property": pid, "preset": d["preset"], "case": d["case"],
                                            "deviation": d["dev"], "type": d["type"]})
         lib.report_violation(pid, path, "%s %s %s [%s]: %s" % (d["type"], d["dev"]["method"], d["dev"]["class"],
                                                                d["preset"], d["dev"]["detail"][:600]))
@@ -364,11 +418,17 @@ def report(pid, viol, known, notes):
 
 def replay(pid, path):
     doc = json.load(open(path))
+    if doc.get("kind") == "ssz-bits":
+        _, bdevs = run_bits()
+        viol, known, notes = adjudicate(pid, bdevs)
+        return report(pid, viol, known, notes)
     if doc.get("kind") != "ssz-case":
         raise lib.InfraError("not an ssz replay file: %s" % path)
     binary = lib.build_harness("ssz")
     schemas_dir, _ = export_schemas()
     case = dict(doc["case"])
+    case.setdefault("sub", [])
+    case.setdefault("olpath", "")
     out = eval_shard((doc["preset"], schemas_dir, [json.dumps(case, separators=(",", ":")) + "\n"], binary, 0, 600))
     devs = []
     for r in out["reports"]:
@@ -378,6 +438,60 @@ def replay(pid, path):
             devs.append({"prop": d["prop"], "type": r["t"], "preset": doc["preset"], "dev": d, "case": case})
     viol, known, notes = adjudicate(pid, devs)
     return report(pid, viol, known, notes)
+
+
+# helper methods of the bit-field / index-set types that must have been replayed from the TLC-enumerated cases
+REQUIRED_BITS = [t + "." + m for t in ("phase0.AttestationBits", "electra.AttestationBits") for m in
+                 ("BitLen", "GetBit", "SetBit", "Or", "Covers", "OnesCount", "FilterParticipants", "FilterNonParticipants",
+                  "SingleParticipant", "Copy")] + [
+    t + "." + m for t in ("altair.SyncCommitteeBits", "altair.SyncCommitteeSubnetBits", "electra.CommitteeBits")
+    for m in ("GetBit", "SetBit")] + [
+    "altair.SyncCommitteeSubnetBits.OnesCount", "common.ValidatorSet.Dedup", "common.ValidatorSet.MergeDisjoint",
+    "common.ValidatorSet.Intersects", "common.ValidatorSet.Swap", "common.Version.ToUint32", "common.KZGCommitment.ToPubkey"]
+
+
+def run_bits():
+    """spec/Bits.tla: TLC enumerates the cases with the operators' results (BitsEval), `ssz bits` replays them on the code."""
+    binary = lib.build_harness("ssz")
+    wd = lib.fresh_spec_copy()
+    res = lib.tlc("BitsEval", workdir=wd, workers=1, timeout=600)
+    lib.tlc_must_pass(res, "BitsEval")
+    cases = os.path.join(wd, "bits.ndjson")
+    if not os.path.exists(cases):
+        raise lib.InfraError("BitsEval wrote no cases\n" + res.out[-2000:])
+    rep = os.path.join(wd, "bits_report.json")
+    p = lib.run([binary, "bits", "-cases", cases, "-out", rep], env=_go_env(), timeout=600)
+    if p.returncode != 0:
+        raise lib.InfraError("ssz bits failed: %s %s" % (p.stdout[-1000:], p.stderr[-2000:]))
+    doc = json.load(open(rep))
+    counts = doc.get("counts") or {}
+    missing = [k for k in REQUIRED_BITS if counts.get(k, 0) == 0]
+    if missing:
+        raise lib.InfraError("bit-field helpers never replayed: %s" % missing)
+    devs = [{"prop": d["prop"], "type": d["type"], "preset": "-", "case": None,
+             "dev": {"prop": d["prop"], "class": d["class"], "method": d["method"], "detail": d["detail"]}}
+            for d in (doc.get("devs") or [])]
+    return {"cases": doc["cases"], "counts": counts, "states": res.distinct, "transitions": res.generated}, devs
+
+
+def run_typed_views(tier, seed):
+    """C15 part of the static pipeline: typed views (AsX constructors, struct.View()) of every type read and return the
+    element they name.  A reduced run: two presets, few values per type, no malformed encodings."""
+    per = 2 if tier == "quick" else 6
+    binary = lib.build_harness("ssz")
+    p = lib.run([binary, "viewtypes"], env=_go_env(), timeout=120)
+    names = [n for n in p.stdout.split() if n]
+    if p.returncode != 0 or len(names) < 40:
+        raise lib.InfraError("ssz viewtypes failed: %s" % p.stderr[-1000:])
+    rx = "^(" + "|".join(re.escape(n) for n in names) + ")$"
+    stats, devs = run_pipeline("C15", tier, seed, ["minimal", "tiny_b"], per=per, budget=3000, malmax=0, over=0, rounds=1,
+                               types=rx)
+    stats["view_types"] = len(names)
+    if stats["binding_gaps"]:
+        raise lib.InfraError("schema table and Go registry disagree: %s" % sorted(stats["binding_gaps"]))
+    probe_guard("C15", stats)
+    viol, known, notes = adjudicate("C15", devs)
+    return stats, viol, known, notes
 
 
 def main_static(pid, tier, seed):
@@ -391,6 +505,14 @@ def main_static(pid, tier, seed):
             stats["per_type"][t]["variable"] = variable
             stats["per_type"][t]["public"] = public
     coverage_guard(stats, need_mal=(pid == "C04"))
+    probe_guard(pid, stats)
+    if pid == "C04":
+        bcov, bdevs = run_bits()
+        stats["bits"] = bcov
+        stats["cases"] += bcov["cases"]
+        stats["states"] += bcov["states"]
+        stats["transitions"] += bcov["transitions"]
+        devs = devs + bdevs
     viol, known, notes = adjudicate(pid, devs)
     return stats, viol, known, notes
 
